@@ -27,7 +27,7 @@ RULE = ('ASTs of the stratified grammar or/and/not/cmp/add/mul/pow/unary/primary
 SHARDS = {'quick': 16, 'thorough': 16}
 NCASES = {'quick': dict(wf=30000, ill=15000), 'thorough': dict(wf=1500000, ill=500000)}
 MIN_NONTRIVIAL = {'quick': 10000, 'thorough': 400000}
-TIME_CAP = {'quick': 50, 'thorough': 800}
+TIME_CAP = {'quick': 300, 'thorough': 3600}
 LEVEL_CLASSES = ['lvl-par', 'lvl-function', 'lvl-unary', 'lvl-pow', 'lvl-mul', 'lvl-add', 'lvl-cmp', 'lvl-not', 'lvl-and', 'lvl-or']
 CHAIN_CLASSES = ['chain3-pow', 'chain3-mul', 'chain3-add', 'chain3-cmp', 'chain3-and', 'chain3-or']
 CMP_CLASSES = ['cmp-' + o for o in R.CMPOPS]
